@@ -147,6 +147,15 @@ func (e *Enc) call(in *ssa.Call, st *State) {
 			e.localClosureCall(in, lf, c, st)
 			return
 		}
+		if pn := callbackName(c.Value); pn != "" && e.pureCallback(pn) {
+			argv := []*Val{fv}
+			for _, a := range c.Args {
+				argv = append(argv, e.val(a))
+			}
+			e.note("callback %s is assumed pure (uninterpreted function of its arguments)", pn)
+			e.set(in, e.ufTerm("cb."+pn, argv, in.Type()))
+			return
+		}
 		pre := st.clone()
 		if pn := callbackName(c.Value); pn != "" && e.con != nil && len(e.con.CallbackPreserves[pn]) > 0 {
 			e.havocAllPreserving(st, e.con.CallbackPreserves[pn])
@@ -156,6 +165,10 @@ func (e *Enc) call(in *ssa.Call, st *State) {
 		dv := e.freshVal("dyncall", in.Type())
 		e.existing(st, dv)
 		e.set(in, dv)
+		{
+			site := "dyn:" + callbackNameOr(c.Value)
+			e.siteResults[fmt.Sprintf("%s#%d", site, e.lastOrd[site])] = dv
+		}
 		if pn := callbackName(c.Value); pn != "" && e.con != nil {
 			for _, en := range e.con.Callback[pn] {
 				if e.active(en) {
@@ -343,7 +356,11 @@ func (e *Enc) staticCallV(in *ssa.Call, callee *ssa.Function, args []ssa.Value, 
 		}
 	}
 	cn := siteNameOf(callee)
-	asserted := e.callSiteHooks(in, cn, callee.Name(), args, argv, st)
+	shortName := callee.Name()
+	if o := callee.Origin(); o != nil {
+		shortName = o.Name()
+	}
+	asserted := e.callSiteHooks(in, cn, shortName, args, argv, st)
 	if e.headerOp(in, callee, cn, argv, st) {
 		return
 	}
@@ -391,13 +408,13 @@ func (e *Enc) staticCallV(in *ssa.Call, callee *ssa.Function, args []ssa.Value, 
 	if len(tinv) > 0 && len(args) > 0 {
 		env := &Env{e: e, st: st, old: st, vars: map[string]*Val{"self": argv[0]}}
 		for _, c := range tinv {
-			e.obligeClause("pre:"+callee.Name()+":typeinv", c, in.Pos(), env.formula(c.E))
+			e.obligeClause("pre:"+shortName+":typeinv", c, in.Pos(), env.formula(c.E))
 		}
 	}
 	if con != nil {
 		env := &Env{e: e, st: st, old: st, vars: vars}
 		for _, r := range con.Requires {
-			e.obligeClause("pre:"+callee.Name(), r, in.Pos(), env.formula(r.E))
+			e.obligeClause("pre:"+shortName, r, in.Pos(), env.formula(r.E))
 		}
 	}
 	if (pkgPathOf(callee) == "encoding/json" && callee.Name() == "Unmarshal") || pkgPathOf(callee) == "sort" {
@@ -411,7 +428,11 @@ func (e *Enc) staticCallV(in *ssa.Call, callee *ssa.Function, args []ssa.Value, 
 		e.applyEffect(st, ef)
 	}
 	var res *Val
-	if pk := pkgPathOf(callee); pk == "path/filepath" && callee.Name() == "Join" && len(argv) == 1 {
+	if con != nil && con.Functional {
+		res = e.ufTerm("fn."+fname(callee), argv, in.Type())
+	}
+	if res != nil {
+	} else if pk := pkgPathOf(callee); pk == "path/filepath" && callee.Name() == "Join" && len(argv) == 1 {
 		res = e.joinUF(argv[0], st)
 	}
 	if res != nil {
@@ -1093,4 +1114,13 @@ func (e *Enc) sortedAfter(callee *ssa.Function, args []ssa.Value, argv []*Val, s
 	e.note("sort.%s is assumed to leave its slice sorted under the declared key order (permutation property not used)", callee.Name())
 	e.assume(fmt.Sprintf("(forall ((a Int) (b Int)) (! (=> (and (<= %s a) (< a b) (< b (+ %s %s))) (not %s)) :pattern (%s %s)))",
 		sl.c[1], sl.c[1], sl.c[2], lt, ka.c[0], kb.c[0]))
+}
+
+func (e *Enc) pureCallback(name string) bool {
+	for fn := e.fn; fn != nil; fn = fn.Parent() {
+		if c := e.db.byFunc[fname(fn)]; c != nil && c.PureCallbacks[name] {
+			return true
+		}
+	}
+	return false
 }
